@@ -84,6 +84,19 @@ def gen(rng, tier):
         src = dict(kind='arrays', nt=5, nl=rng.randint(1, 2), nr=rng.randint(1, 2), nc=rng.randint(1, 2), nv=1, sdate=sd, stime=0,
                    tstep=ts, lv=sorted(rng.sample(range(0, 65), 5), reverse=True), withcf=False, notflag=True)
         out.append(dict(src=src, recipes=[], ops=[['slice', [['TSTEP', ['s', 1, None]]]]], redate=0))
+    # on every run: files that run backward in time (negative TSTEP), with flags and described by the header only; windows of
+    # two and more records
+    for ts, notflag in ((-10000, False), (-13000, True), (-240000, False), (-3000, True)):
+        sd, st = rng.choice(STARTS)
+        src = dict(kind='arrays', nt=rng.randint(3, 5), nl=1, nr=rng.randint(1, 2), nc=rng.randint(1, 2), nv=1, sdate=sd, stime=st, tstep=ts,
+                   lv=sorted(rng.sample(range(0, 65), 5), reverse=True), withcf=False, notflag=notflag)
+        a = rng.randint(0, 1)
+        out.append(dict(src=src, recipes=[], ops=[['slice', [['TSTEP', ['s', a, a + rng.randint(2, 3)]]]]]))
+    # on every run: a combined window of a large grid (more than 2**22 cells in a variable: code paths that save memory)
+    sd, st = rng.choice(STARTS)
+    src = dict(kind='arrays', nt=1, nl=1, nr=2050, nc=2050, nv=1, sdate=sd, stime=st, tstep=10000,
+               lv=sorted(rng.sample(range(0, 65), 5), reverse=True), withcf=False)
+    out.append(dict(src=src, recipes=[], ops=[['slice', [['ROW', ['s', rng.randint(1, 9), 40]], ['COL', ['s', rng.randint(1, 9), 60]]]]]))
     # on every run: the origin held as arrays, a window that does not start at the first row / column
     for _ in range(4):
         sd, st = rng.choice(STARTS)
